@@ -42,9 +42,19 @@ CONSTANTS MaxRecs,             \* the workload has 1..MaxRecs records (shape cho
           EnterKeepsPending,   \* TRUE: __enter__ keeps the count of the commits that are already deferred
                                \* (max(1, _pending_commits), the code).  FALSE: negative control - entering a
                                \* block (again) starts the count afresh and forgets a commit that is owed
-          ParentFirst          \* TRUE: the program inserts a record only after the record it points to
+          ParentFirst,         \* TRUE: the program inserts a record only after the record it points to
                                \* (add_credential: Token, then Metadata, then its Attestations - the code).
                                \* FALSE: negative control - the records of a credential are written in any order
+          MaxVers,             \* forms in which a token can be handed to insert_token (1: one form only; 2: with its
+                               \* content and as the bare double pointer of its public form - same primary key,
+                               \* other bytes)
+          TokenConflict,       \* what the INSERT of a token does when a row with its primary key is stored already:
+                               \* "ignore" (INSERT OR IGNORE, the code) / "replace" (negative control: the stored -
+                               \* acknowledged - row is overwritten with the bytes of the later form)
+          MaxFaults,           \* how many statements sqlite may FAIL (disk full, I/O error, busy) in a behaviour
+          CommitErrorRaises    \* TRUE: a COMMIT that fails raises out of Database.commit() and out of the insert
+                               \* call (the code).  FALSE: negative control - commit() swallows the error and the
+                               \* insert call returns as if the record were stored
 
 DBs   == {"id", "att"}
 Kinds == {"token", "metadata", "attestation", "blob"}
@@ -65,17 +75,21 @@ VARIABLES recs,        \* workload: sequence of [kind, ref]; ref = record this o
           held,        \* records whose insert call returned inside a block that has not been left yet
           rebuilt,     \* what the reload produced, in the state right after the reload only
           pend,        \* DBs -> Database._pending_commits (0: commit() commits; > 0: commit() is deferred)
-          batches      \* blocks opened so far
-ackvars == <<depth, held>>
+          batches,     \* blocks opened so far
+          ackv,        \* acked record -> the form of its row at the moment it was acknowledged (0: no row then)
+          faults       \* statements that sqlite has failed so far
+ackvars == <<depth, held, ackv>>
 dbvars  == <<D, T, inTxn, up, acked, executed, openFailed, runs, ackvars>>
-vars    == <<recs, legacy, dbvars, calls, pc, pend, batches>>
+vars    == <<recs, legacy, dbvars, calls, pc, pend, batches, faults>>
 allvars == <<vars, rebuilt>>
 
 (* image of one database file. rows: record ids; data: the data tables exist; opt: the option table  *)
 (* exists; ver: 0 = no database_version row, 1 = an older version, 2 = latest; cols: 1 = old layout   *)
-(* of the attestation table, 2 = layout with the id_format column                                    *)
-Fresh     == [rows |-> {}, data |-> FALSE, opt |-> FALSE, ver |-> 0, cols |-> 2]
-LegacyImg == [rows |-> {1}, data |-> TRUE, opt |-> TRUE, ver |-> 1, cols |-> 1]
+(* of the attestation table, 2 = layout with the id_format column; val: row -> the form (version of  *)
+(* its bytes) that is stored, DOMAIN val = rows                                                       *)
+Fresh     == [rows |-> {}, data |-> FALSE, opt |-> FALSE, ver |-> 0, cols |-> 2, val |-> <<>>]
+LegacyImg == [rows |-> {1}, data |-> TRUE, opt |-> TRUE, ver |-> 1, cols |-> 1, val |-> (1 :> 1)]
+StoredVer(img, r) == IF r \in img.rows THEN img.val[r] ELSE 0
 
 DbOfKind(k) == IF k = "blob" THEN "att" ELSE "id"
 DbOf(r)     == DbOfKind(recs[r].kind)
@@ -98,11 +112,26 @@ DbCommit(d) == /\ up /\ inTxn[d]
                /\ inTxn' = [inTxn EXCEPT ![d] = FALSE]
                /\ UNCHANGED <<T, up, acked, executed, openFailed, runs, ackvars>>
 
-DbExecute(r) == LET d == DbOf(r) IN
-                /\ up /\ T[d].data
-                /\ Apply(d, [T[d] EXCEPT !.rows = @ \cup {r}])
-                /\ executed' = executed \cup {r}
-                /\ UNCHANGED <<inTxn, up, acked, openFailed, runs, ackvars>>
+(* INSERT of record r in form v. A row with the primary key of r may be stored already: INSERT OR IGNORE  *)
+(* leaves it as it is, INSERT OR REPLACE overwrites it with the new bytes, a plain INSERT raises (no step) *)
+Modes == {"ignore", "replace", "plain"}
+DbExecute(r, v, mode) ==
+  LET d == DbOf(r) IN
+  /\ up /\ T[d].data /\ mode \in Modes
+  /\ IF r \notin T[d].rows
+     THEN Apply(d, [T[d] EXCEPT !.rows = @ \cup {r}, !.val = (r :> v) @@ @])
+     ELSE /\ mode # "plain"
+          /\ Apply(d, IF mode = "replace" THEN [T[d] EXCEPT !.val = (r :> v) @@ @] ELSE T[d])
+  /\ executed' = executed \cup {r}
+  /\ UNCHANGED <<inTxn, up, acked, openFailed, runs, ackvars>>
+
+(* a statement FAILS (disk full, I/O error, database busy): it has no effect of its own; sqlite either keeps  *)
+(* the open transaction (rb = FALSE) or has rolled it back (rb = TRUE) - never is anything made durable       *)
+DbFail(d, rb) == /\ up /\ rb \in BOOLEAN
+                 /\ IF rb /\ inTxn[d]
+                    THEN T' = [T EXCEPT ![d] = D[d]] /\ inTxn' = [inTxn EXCEPT ![d] = FALSE]
+                    ELSE UNCHANGED <<T, inTxn>>
+                 /\ UNCHANGED <<D, up, acked, executed, openFailed, runs, ackvars>>
 
 Schema(d, img) == /\ up /\ Apply(d, img)
                   /\ UNCHANGED <<inTxn, up, acked, executed, openFailed, runs, ackvars>>
@@ -123,22 +152,24 @@ DbRollback(d) == /\ up /\ inTxn[d]
 
 (* ----- layer 1b: acknowledgement ----- *)
 (* an insert call returns: outside every block of its database the record is acknowledged now *)
+(* the row of a record is pinned in the form it has when the record is FIRST acknowledged *)
+AckForms(S) == [r \in (S \ DOMAIN ackv) |-> StoredVer(D[DbOf(r)], r)] @@ ackv
 DbReturn(r) == /\ up /\ r \in executed
-               /\ IF depth[DbOf(r)] = 0 THEN acked' = acked \cup {r} /\ UNCHANGED held
-                                        ELSE held' = held \cup {r} /\ UNCHANGED acked
+               /\ IF depth[DbOf(r)] = 0 THEN acked' = acked \cup {r} /\ ackv' = AckForms({r}) /\ UNCHANGED held
+                                        ELSE held' = held \cup {r} /\ UNCHANGED <<acked, ackv>>
                /\ UNCHANGED <<D, T, inTxn, up, executed, openFailed, runs, depth>>
 
 Hows == {"ok", "ignore", "error"}
 DbEnter(d) == /\ up /\ depth' = [depth EXCEPT ![d] = @ + 1]
-              /\ UNCHANGED <<D, T, inTxn, up, acked, executed, openFailed, runs, held>>
+              /\ UNCHANGED <<D, T, inTxn, up, acked, executed, openFailed, runs, held, ackv>>
 (* the block is left: normally ("ok"), by raise IgnoreCommits ("ignore") or by any other exception ("error") *)
 DbLeave(d, how) ==
   LET mine == {r \in held : DbOf(r) = d} IN
   /\ up /\ depth[d] > 0 /\ how \in Hows
   /\ depth' = [depth EXCEPT ![d] = @ - 1]
-  /\ IF how # "ok" THEN held' = held \ mine /\ UNCHANGED acked
-     ELSE IF depth[d] = 1 THEN acked' = acked \cup mine /\ held' = held \ mine
-     ELSE UNCHANGED <<acked, held>>
+  /\ IF how # "ok" THEN held' = held \ mine /\ UNCHANGED <<acked, ackv>>
+     ELSE IF depth[d] = 1 THEN acked' = acked \cup mine /\ held' = held \ mine /\ ackv' = AckForms(mine)
+     ELSE UNCHANGED <<acked, held, ackv>>
   /\ UNCHANGED <<D, T, inTxn, up, executed, openFailed, runs>>
 
 (* ----- layer 1b: the reload of a (re)started process: PseudonymManager.__init__ ----- *)
@@ -173,13 +204,13 @@ DbReload == /\ up
 DbCrash == /\ up /\ up' = FALSE
            /\ T' = D /\ inTxn' = [d \in DBs |-> FALSE]
            /\ depth' = [d \in DBs |-> 0] /\ held' = {}
-           /\ UNCHANGED <<D, acked, executed, openFailed, runs>>
+           /\ UNCHANGED <<D, acked, executed, openFailed, runs, ackv>>
 
 (* open() raised: the process gives up, its connection is dropped without a commit *)
 DbOpenError == /\ up /\ up' = FALSE /\ openFailed' = TRUE
                /\ T' = D /\ inTxn' = [d \in DBs |-> FALSE]
                /\ depth' = [d \in DBs |-> 0] /\ held' = {}
-               /\ UNCHANGED <<D, acked, executed, runs>>
+               /\ UNCHANGED <<D, acked, executed, runs, ackv>>
 
 (* Database.close(): commit, then close (not from inside a block) *)
 DbExit == /\ up /\ up' = FALSE /\ \A d \in DBs : depth[d] = 0
@@ -189,7 +220,7 @@ DbExit == /\ up /\ up' = FALSE /\ \A d \in DBs : depth[d] = 0
 (* --------------------------------- layer 2: the program ------------------------------------------ *)
 Down == <<"down">>
 (* what the reload produced is looked at in the state right after the reload: every other step forgets it *)
-Same0 == UNCHANGED <<calls, recs, legacy>> /\ rebuilt' = NoRebuilt
+Same0 == UNCHANGED <<calls, recs, legacy, faults>> /\ rebuilt' = NoRebuilt
 Same  == Same0 /\ UNCHANGED <<pend, batches>>
 
 ValidRecs(s) ==
@@ -205,17 +236,19 @@ ValidRecs(s) ==
 
 InitDb(leg) ==
   /\ legacy = leg
-  /\ D = [d \in DBs |-> IF d = "att" /\ leg # {} THEN [LegacyImg EXCEPT !.rows = leg] ELSE Fresh]
+  /\ D = [d \in DBs |-> IF d = "att" /\ leg # {} THEN [LegacyImg EXCEPT !.rows = leg, !.val = [r \in leg |-> 1]]
+                          ELSE Fresh]
   /\ T = D
   /\ inTxn = [d \in DBs |-> FALSE]
   /\ up = FALSE /\ acked = leg /\ executed = leg /\ openFailed = FALSE /\ runs = 0
   /\ depth = [d \in DBs |-> 0] /\ held = {} /\ rebuilt = NoRebuilt
+  /\ ackv = [r \in leg |-> 1]
 
 Init == /\ \E n \in 1..MaxRecs : recs \in [1..n -> [kind : Kinds, ref : 0..(MaxRecs - 1)]]
         /\ ValidRecs(recs)
         /\ Legacy => recs[1].kind = "blob"
         /\ InitDb(IF Legacy THEN {1} ELSE {})
-        /\ calls = 0 /\ pc = Down /\ pend = [d \in DBs |-> 0] /\ batches = 0
+        /\ calls = 0 /\ pc = Down /\ pend = [d \in DBs |-> 0] /\ batches = 0 /\ faults = 0
 
 PStart == /\ pc = Down /\ runs < MaxRuns /\ DbStart
           /\ pc' = <<"open", "id", "rv", FALSE>> /\ Same
@@ -252,7 +285,7 @@ POpenCommit(d) == At(d, "commit") /\ DbCommit(d) /\ pc' = AfterOpen(d) /\ Same
 
 (* a restarted process reads everything back (the harness' observation point) *)
 PObserve == /\ pc = <<"observe">> /\ pc' = <<"idle">> /\ DbReload
-            /\ UNCHANGED <<calls, recs, legacy, pend, batches>>
+            /\ UNCHANGED <<calls, recs, legacy, pend, batches, faults>>
 
 (* the workload inserts a record after the record it points to; anything not yet acknowledged may be *)
 (* (re-)inserted after a restart; INSERT OR IGNORE makes the re-insert of a stored record a no-op     *)
@@ -262,19 +295,31 @@ PObserve == /\ pc = <<"observe">> /\ pc' = <<"idle">> /\ DbReload
 Insertable(i) == /\ i \notin legacy
                  /\ ParentFirst => (Ref(i) = 0 \/ Ref(i) \in T[DbOf(i)].rows)
                  /\ recs[i].kind = "blob" => i \notin T["att"].rows
+(* a token may be handed in again in another FORM (add_credential with the public form of a token that is  *)
+(* stored with its content, or the other way round): same primary key, other bytes                          *)
+Forms(i)  == IF recs[i].kind = "token" THEN 1..MaxVers ELSE {1}
+ModeOf(i) == IF recs[i].kind = "blob" THEN "plain" ELSE IF recs[i].kind = "token" THEN TokenConflict ELSE "ignore"
 PCall(i) == /\ i \in Recs /\ pc = <<"idle">> /\ calls < MaxCalls /\ Insertable(i)
-            /\ calls' = calls + 1 /\ pc' = <<"ins", i, IF inTxn[DbOf(i)] THEN "exec" ELSE "begin">> /\ UNCHANGED <<dbvars, recs, legacy, pend, batches>>
+            /\ \E v \in Forms(i) : pc' = <<"ins", i, IF inTxn[DbOf(i)] THEN "exec" ELSE "begin", v>>
+            /\ calls' = calls + 1 /\ UNCHANGED <<dbvars, recs, legacy, pend, batches, faults>>
             /\ rebuilt' = NoRebuilt
 
-Ins(i, s) == pc = <<"ins", i, s>>
+Ins(i, s) == Len(pc) = 4 /\ pc[1] = "ins" /\ pc[2] = i /\ pc[3] = s
+To(s)     == [pc EXCEPT ![3] = s]
 (* the implicit BEGIN of the python driver - not issued when a transaction is open already (PCall) *)
-PBegin(i)  == Ins(i, "begin") /\ DbBegin(DbOf(i)) /\ Same /\ pc' = <<"ins", i, "exec">>
-PExecute(i) == /\ Ins(i, "exec") /\ DbExecute(i) /\ Same
-               /\ pc' = <<"ins", i, IF CommitBeforeReturn THEN "commit" ELSE "ret">>
+PBegin(i)  == Ins(i, "begin") /\ DbBegin(DbOf(i)) /\ Same /\ pc' = To("exec")
+PExecute(i) == /\ Ins(i, "exec") /\ DbExecute(i, pc[4], ModeOf(i)) /\ Same
+               /\ pc' = To(IF CommitBeforeReturn THEN "commit" ELSE "ret")
 (* Database.commit(): deferred (counted) while the gate is closed *)
-PCommit(i) == /\ Ins(i, "commit") /\ pc' = <<"ins", i, "ret">> /\ Same0 /\ UNCHANGED batches
+PCommit(i) == /\ Ins(i, "commit") /\ pc' = To("ret") /\ Same0 /\ UNCHANGED batches
               /\ IF pend[DbOf(i)] = 0 THEN DbCommit(DbOf(i)) /\ UNCHANGED pend
                  ELSE pend' = [pend EXCEPT ![DbOf(i)] = @ + 1] /\ UNCHANGED dbvars
+(* the COMMIT fails (disk full, I/O error, busy): the error travels out of commit() and out of the insert   *)
+(* call - the caller is told nothing was stored, the record is NOT acknowledged                              *)
+PCommitFail(i, rb) == /\ Ins(i, "commit") /\ pend[DbOf(i)] = 0 /\ faults < MaxFaults
+                      /\ DbFail(DbOf(i), rb) /\ faults' = faults + 1
+                      /\ pc' = IF CommitErrorRaises THEN <<"idle">> ELSE To("ret")
+                      /\ UNCHANGED <<calls, recs, legacy, pend, batches>> /\ rebuilt' = NoRebuilt
 PReturn(i) == Ins(i, "ret") /\ DbReturn(i) /\ pc' = <<"idle">> /\ Same
 
 (* "with database:" - __enter__ closes the commit gate; __exit__ opens it again and, when the block is  *)
@@ -288,7 +333,16 @@ PLeaveCommit(d) == /\ pc = <<"idle">> /\ depth[d] > 0 /\ pend[d] > 1
                    /\ pend' = [pend EXCEPT ![d] = 0] /\ pc' = <<"leaving", d>>
                    /\ (IF inTxn[d] THEN DbCommit(d) ELSE UNCHANGED dbvars)
                    /\ Same0 /\ UNCHANGED batches
+(* the commit that __exit__ owes FAILS: the error leaves the block instead of the normal end - what the block *)
+(* held is not acknowledged (with the negative control the block is left as if the commit had been made)      *)
+PLeaveCommitFail(d, rb) ==
+                   /\ pc = <<"idle">> /\ depth[d] > 0 /\ pend[d] > 1 /\ inTxn[d] /\ faults < MaxFaults
+                   /\ pend' = [pend EXCEPT ![d] = 0] /\ faults' = faults + 1
+                   /\ pc' = IF CommitErrorRaises THEN <<"failing", d>> ELSE <<"leaving", d>>
+                   /\ DbFail(d, rb)
+                   /\ UNCHANGED <<calls, recs, legacy, batches>> /\ rebuilt' = NoRebuilt
 PLeave(d, how) == /\ \/ pc = <<"leaving", d>> /\ how = "ok"
+                     \/ pc = <<"failing", d>> /\ how = "error"
                      \/ pc = <<"idle">> /\ depth[d] > 0 /\ (how = "ok" => pend[d] <= 1)
                   /\ DbLeave(d, how) /\ pc' = <<"idle">>
                   /\ pend' = IF how = "error" /\ ~GateResetOnError THEN pend ELSE [pend EXCEPT ![d] = 0]
@@ -302,6 +356,8 @@ PCrash == /\ pc # Down /\ pc # <<"failed">> /\ DbCrash /\ pc' = Down
 Next == \/ PStart \/ PObserve \/ PExit \/ PCrash
         \/ \E d \in DBs : PEnter(d)
         \/ \E d \in DBs : PLeaveCommit(d)
+        \/ \E d \in DBs : \E rb \in BOOLEAN : PLeaveCommitFail(d, rb)
+        \/ \E i \in 1..MaxRecs : \E rb \in BOOLEAN : PCommitFail(i, rb)
         \/ \E d \in DBs : \E how \in Hows : PLeave(d, how)
         \/ \E d \in DBs : PReadVersion(d)
         \/ \E d \in DBs : POpenBegin(d)
@@ -321,8 +377,11 @@ Next == \/ PStart \/ PObserve \/ PExit \/ PCrash
 Spec == Init /\ [][Next]_allvars
 
 (* ------------------------------------- properties ------------------------------------------------ *)
-Image == [rows : SUBSET Recs, data : BOOLEAN, opt : BOOLEAN, ver : 0..2, cols : 1..2]
-TypeOK == /\ D \in [DBs -> Image] /\ T \in [DBs -> Image] /\ inTxn \in [DBs -> BOOLEAN]
+ImageOK(img) == /\ img.rows \subseteq Recs /\ img.data \in BOOLEAN /\ img.opt \in BOOLEAN /\ img.ver \in 0..2
+                /\ img.cols \in 1..2 /\ DOMAIN img.val = img.rows /\ \A r \in img.rows : img.val[r] \in 1..MaxVers
+TypeOK == /\ \A d \in DBs : ImageOK(D[d]) /\ ImageOK(T[d])
+          /\ inTxn \in [DBs -> BOOLEAN]
+          /\ DOMAIN ackv = acked /\ faults \in 0..MaxFaults
           /\ acked \subseteq Recs /\ executed \subseteq Recs /\ legacy \subseteq Recs
           /\ up \in BOOLEAN /\ openFailed \in BOOLEAN
           /\ \A d \in DBs : ~inTxn[d] => T[d] = D[d]
@@ -334,6 +393,9 @@ TypeOK == /\ D \in [DBs -> Image] /\ T \in [DBs -> Image] /\ inTxn \in [DBs -> B
 (* every record whose insert call has returned is in the durable image - in every state, hence at   *)
 (* every instant at which the process can be killed                                                  *)
 AckedDurable    == \A r \in acked : r \in D[DbOf(r)].rows
+(* ... and UNCHANGED: the durable row of an acknowledged record has the bytes it had when the record was   *)
+(* acknowledged, whatever was inserted since (the same record in another form included)                    *)
+AckedUnchanged  == \A r \in acked : (ackv[r] # 0 /\ r \in D[DbOf(r)].rows) => D[DbOf(r)].val[r] = ackv[r]
 (* only whole records that were really inserted are ever visible, each in its own database          *)
 NoPartialRecord == \A d \in DBs : \A r \in D[d].rows : r \in executed /\ DbOf(r) = d
 (* the database opens again                                                                          *)
